@@ -120,6 +120,14 @@ func (c *Cluster) handleSQL(ctx context.Context, conn *pgshim.Conn, kind, q stri
 		if sess == nil || sess.txn == nil {
 			return nil, pgErr("25P01", "RELEASE SAVEPOINT can only be used in transaction blocks", "")
 		}
+		if c.Hook != nil {
+			if err := c.Hook(ctx, "sql:RELEASE SAVEPOINT"); err != nil {
+				c.mu.Lock()
+				sess.txn.aborted = true
+				c.mu.Unlock()
+				return nil, err
+			}
+		}
 		name := strings.TrimSpace(trim[len("RELEASE SAVEPOINT "):])
 		c.mu.Lock()
 		defer c.mu.Unlock()
@@ -165,6 +173,28 @@ func (c *Cluster) handleSQL(ctx context.Context, conn *pgshim.Conn, kind, q stri
 	}
 	if strings.Contains(trim, `"mem"."snap_`) {
 		return c.execSnapshotQuery(trim)
+	}
+	if c.Hook != nil { // the state tracker's direct statements are fault sites too
+		site := "sql:other"
+		switch {
+		case reUpdateState.MatchString(trim):
+			site = "sql:UPDATE _system.ledgers"
+		case reSelectLedger.MatchString(trim):
+			site = "sql:SELECT _system.ledgers"
+		case strings.Contains(trim, "setval"):
+			site = "sql:setval"
+		}
+		c.mu.Lock()
+		c.stats.calls++
+		c.mu.Unlock()
+		if err := c.Hook(ctx, site); err != nil {
+			if sess != nil && sess.txn != nil {
+				c.mu.Lock()
+				sess.txn.aborted = true
+				c.mu.Unlock()
+			}
+			return nil, err
+		}
 	}
 	if m := reUpdateState.FindStringSubmatch(trim); m != nil {
 		return c.sqlUpdateLedgerState(ctx, sess, m)
